@@ -48,6 +48,8 @@ CONTAINERS = [
     ("center-in-cell", "{|\n| c1 || <center>", "</center>\n|}"),
     ("late-table1", "intro\n\n{| ATTR\n|", "\n|}"),
     # content inside a section heading / inside a space-indented preformatted line
+    # attribute names in capitals / mixed case (HTML attribute names are case-insensitive)
+    ("table-caps", "{| cellSpacing=\"0\" BORDER=\"1\"\n| BGCOLOR=\"#eee\" | ", "\n|}"),
     ("heading", "== h ", " ==\nbody\n"),
     ("spacepre", " pre ", "\n"),
 ]
@@ -88,6 +90,7 @@ LEAVES = [
     ("long-list", "\n" + "".join("* item %d\n" % i for i in range(8))),
     ("big-nested-table", "\n{|\n| " + LONG_TEXT + " " + LONG_TEXT + "\n|-\n| more\n|}\n"),
     # inline HTML block elements (usable inside a heading or a preformatted line)
+    ("caps-attr", "<div Class=\"box\" STYLE=\"color:red\" Id=\"x\">caps</div>"),
     ("html-list", "<ul><li>one</li><li>two</li></ul>"),
     ("html-table", "<table><tr><td>c1</td><td>c2</td></tr></table>"),
     # two nesting violations at different depths below one neutral wrapper
